@@ -34,6 +34,35 @@ def id_uniqueness(case):
     return {'n': len(ids), 'duplicates': dup, 'example': example, 'seconds': case['seconds']}
 
 
+def undecodable_between(_case):
+    """A packet the codec itself cannot decode (a KF-C19-2 payload, written by send()) between ordinary packets: whatever happens to
+    that packet, the others must be delivered once and in order, and receive() must not raise."""
+    import os
+    import tempfile
+    d = tempfile.mkdtemp(prefix='pktz-u-', dir=os.environ.get('VERIF_SCRATCH'))
+    cwd = os.getcwd()
+    os.chdir(d)
+    try:
+        from tatsu.packetz.queue import PacketzQueue
+        w, r = PacketzQueue('q.jsonl'), PacketzQueue('q.jsonl')
+        sent = ['one', 'back\\e slash', 'three', '\\e[1m', 'five']
+        for x in sent:
+            w.send(to='a', data=x)
+        out = {'sent': sent, 'rounds': []}
+        for _ in range(3):
+            got = []
+            try:
+                for p in r.receive():
+                    got.append(p.data)
+                out['rounds'].append(got)
+            except Exception as e:  # noqa: BLE001
+                out['rounds'].append(got)
+                out['rounds'].append(f'raised {type(e).__name__}: {str(e)[:80]}')
+        return out
+    finally:
+        os.chdir(cwd)
+
+
 def run(tier):
     ck = Check('C19', tier)
     d = tlc.scratch_dir('pktz')
@@ -127,6 +156,16 @@ def run(tier):
                           'observed': {'distinct ids': o['n'] - o['duplicates'], 'repeated': o['duplicates'], 'example': o['example']},
                           'why': 'packet ids repeat: the reader drops a later packet whose id it has seen', 'spec': 'PacketQueue!NothingLost (UniqueIds)'},
                          key='idrepeat')
+        o = pmap(undecodable_between, [0], procs=1)[0]
+        ck.count(evaluations=1, traces=1)
+        flat = [x for rd in o['rounds'] if isinstance(rd, list) for x in rd]
+        raised = [rd for rd in o['rounds'] if isinstance(rd, str)]
+        if raised or [x for x in flat if x in ('one', 'three', 'five')] != ['one', 'three', 'five']:
+            ck.violation({'kind': 'history', 'inputs': {'sent': o['sent']}, 'expected': "receive() delivers 'one', 'three', 'five' once, in order, and does not raise",
+                          'observed': o['rounds'], 'why': 'a packet that cannot be decoded disturbs the delivery of the others',
+                          'spec': 'PacketQueue!InOrderOnce / NothingLost (a bad line is skipped)'}, key='undecodable')
+        elif len(flat) < len(o['sent']):
+            ck.known('KF-C19-2', f"sent {o['sent']}, received {flat}: the packets containing backslash-e are never delivered")
         # ---- queue: behaviours replayed on real files
         cases = []
         for np_, rl, readers in ([(2, 3, ['r1', 'r2']), (3, 3, ['r1'])] if tier == 'quick' else [(3, 3, ['r1', 'r2']), (3, 4, ['r1']), (2, 3, ['r1', 'r2'])]):
